@@ -27,6 +27,8 @@ func main() {
 		os.Exit(cmdCheck(os.Args[2:]))
 	case "replay":
 		os.Exit(cmdReplay(os.Args[2:]))
+	case "replaycheck":
+		os.Exit(cmdReplayCheck(os.Args[2:]))
 	default:
 		fmt.Fprintln(os.Stderr, "unknown command", os.Args[1])
 		os.Exit(2)
@@ -200,6 +202,14 @@ func runCheck(o *checkOpts) int {
 						continue
 					}
 					rep.Paths = ex.nPaths
+					if rep.Unsupported == "" && fi.Spec != nil {
+						// an anchored clause that no path reached no longer binds to the code
+						for _, an := range fi.Spec.Anchors {
+							if ex.propActive(an.Props) && !ex.firedAnchors[an] {
+								rep.Unsupported = fmt.Sprintf("anchored clause never reached (`%s %s[%d]` does not bind): %s", an.When, an.Callee, an.Ord, an.Src)
+							}
+						}
+					}
 					if rep.Unsupported != "" {
 						genFailures = append(genFailures, rep.Name+": "+rep.Unsupported)
 					}
@@ -271,9 +281,22 @@ func runCheck(o *checkOpts) int {
 		violations++
 		exit = 1
 		path := filepath.Join(replayDir, "gen-"+sanitizeFile(g)[:min(60, len(sanitizeFile(g)))]+".json")
-		writeJSON(path, map[string]interface{}{"property": o.prop, "obligation": "#gen", "reason": g})
+		rep := map[string]interface{}{"property": o.prop, "obligation": "#gen", "reason": g}
+		found := false
+		if prog != nil {
+			// "pkg.Func: message": the contract no longer fits the code; the contract's clauses can still
+			// be evaluated on the real function
+			if i := strings.Index(g, ": "); i > 0 {
+				found = tryReplay(prog, o, &Obligation{Name: "#gen", Kind: "gen", Func: g[:i], Status: "gen"}, rep)
+			}
+		}
+		writeJSON(path, rep)
 		fmt.Printf("FAILED-OBLIGATION %s #gen: %s\n", o.prop, g)
-		fmt.Printf("VIOLATION property=%s replay=%s no-failing-input-found\n", o.prop, path)
+		if found {
+			fmt.Printf("VIOLATION property=%s replay=%s\n", o.prop, path)
+		} else {
+			fmt.Printf("VIOLATION property=%s replay=%s no-failing-input-found\n", o.prop, path)
+		}
 	}
 	sort.Slice(failed, func(i, j int) bool { return failed[i].Name < failed[j].Name })
 	reported := map[string]bool{}
@@ -332,6 +355,47 @@ func runCheck(o *checkOpts) int {
 			} else {
 				fmt.Printf("VIOLATION property=%s replay=%s no-failing-input-found\n", o.prop, path)
 			}
+		}
+	}
+	// ---- thorough tier: the contracts of the replayable functions are evaluated on the real code
+	// for small inputs (the generator of replay tests run on the tree as it is). BOUNDED, never
+	// counted as proved: it ties the contract text to the running code independently of the
+	// verifier's semantics of Go, and validates the spec-to-Go translation the replays rely on. ----
+	var rtChecks []string
+	if o.tier == "thorough" && o.only == "" && !o.canary && prog != nil {
+		var keys []string
+		byKey := map[string]*FuncInfo{}
+		for _, pk := range prog.Pkgs {
+			for _, f := range pk.Funcs {
+				if f.Spec == nil || f.Spec.Ext || f.Decl == nil || f.Decl.Recv != nil || strings.HasPrefix(f.Key, "verifClient") || !hasProp(f.Spec.Props, o.prop) {
+					continue
+				}
+				keys = append(keys, f.FullName())
+				byKey[f.FullName()] = f
+			}
+		}
+		sort.Strings(keys)
+		for _, k := range keys {
+			r := replayFunction(prog, o, byKey[k], nil, nil)
+			name := k + "#contract-on-real-code"
+			switch {
+			case r.found:
+				if kf := known.match(o.prop, name); kf != "" {
+					fmt.Printf("KNOWN-FINDING: property=%s obligation=%s %s\n", o.prop, name, kf)
+					continue
+				}
+				violations++
+				exit = 1
+				path := filepath.Join(replayDir, sanitizeFile(name)+".json")
+				writeJSON(path, map[string]interface{}{"property": o.prop, "obligation": name, "kind": "bounded: the function's contract evaluated on the real code for small inputs", "failing_input": r.input, "violated_clause": r.clause, "replay_test": r.file, "replay_output": r.output})
+				fmt.Printf("FAILED-OBLIGATION %s %s [failed] the real code violates a clause of its contract: %s\n", o.prop, name, truncate(r.output, 300))
+				fmt.Printf("VIOLATION property=%s replay=%s\n", o.prop, path)
+			case r.tried && strings.HasPrefix(r.reason, "no candidate input"):
+				rtChecks = append(rtChecks, fmt.Sprintf("%s: contract held on the real code for %d small inputs (BOUNDED, not a proof)", k, r.nCands))
+			}
+		}
+		if len(rtChecks) > 0 {
+			fmt.Printf("BOUNDED-CONTRACT-CHECK %s: %d functions' contracts evaluated on the real code for small inputs, all held\n", o.prop, len(rtChecks))
 		}
 	}
 	if o.verbose {
@@ -442,6 +506,7 @@ func runCheck(o *checkOpts) int {
 		"not_covered_clauses":      meta.NotCovered,
 		"bounded_standins":         append(append([]string{}, meta.BoundedStandins...), standinSummaries(standins)...),
 		"bounded_standin_runs":     standins,
+		"bounded_contract_checks_on_real_code": rtChecks,
 		"per_solver_timeout_s":     o.timeoutS,
 		"mustfail_canaries":        canaries,
 		"rule":                     "one obligation per contract clause, safety condition, loop-invariant step and frame condition on each symbolic path of each function under contract; every obligation is a closed formula valid for all inputs",
